@@ -60,6 +60,9 @@ func famCodec(t *testing.T) {
 	out := newNDWriter(*fOut)
 	defer out.close()
 	si, sn := shard()
+	if si == 0 {
+		out.write(codecBodies(t))
+	}
 	for i, cs := range in.Strings {
 		if i%sn != si {
 			continue
@@ -171,3 +174,49 @@ func (w *queryProvider) GetSubject() *rts.Subject { return w.q.Subject }
 func (w *queryProvider) GetObject() *string       { return w.q.Object }
 func (w *queryProvider) GetNamespace() *string    { return w.q.Namespace }
 func (w *queryProvider) GetRelation() *string     { return w.q.Relation }
+
+// codecBodies: the JSON body of a POST check is decoded per request. Bodies with a subject id and bodies with a subject set
+// (and bodies that leave fields out) are sent one after the other to one server; every answer must be the answer the same
+// relationship gets through the URL-query encoding (GET), whatever was sent before.
+func codecBodies(t *testing.T) map[string]any {
+	e := newStoreEnv(t, storeNamespaces(), *fSeed)
+	set := &ketoapi.SubjectSet{Namespace: "n1", Object: "g", Relation: "m"}
+	stored := []*ketoapi.RelationTuple{
+		{Namespace: "n1", Object: "o", Relation: "r", SubjectSet: set},
+		{Namespace: "n1", Object: "g", Relation: "m", SubjectID: ptr("member")},
+		{Namespace: "n1", Object: "o2", Relation: "r", SubjectID: ptr("direct")},
+	}
+	e.setInitial(stored)
+	tuples := []*ketoapi.RelationTuple{
+		{Namespace: "n1", Object: "o", Relation: "r", SubjectID: ptr("nobody")},
+		{Namespace: "n1", Object: "o", Relation: "r", SubjectSet: set},
+		{Namespace: "n1", Object: "o2", Relation: "r", SubjectID: ptr("direct")},
+		{Namespace: "n1", Object: "o2", Relation: "r", SubjectSet: set},
+		{Namespace: "n1", Object: "o", Relation: "r", SubjectID: ptr("member")},
+		{Namespace: "n1", Object: "o2", Relation: "", SubjectID: ptr("direct")},
+		{Namespace: "n1", Object: "", Relation: "r", SubjectSet: &ketoapi.SubjectSet{Namespace: "n1", Object: "g", Relation: ""}},
+	}
+	var bad []string
+	n := 0
+	for round := 0; round < 3; round++ {
+		for i := range tuples {
+			for j := range tuples {
+				for _, path := range []string{"/relation-tuples/check/openapi", "/relation-tuples/check"} {
+					for _, rt := range []*ketoapi.RelationTuple{tuples[i], tuples[j]} {
+						body, _ := json.Marshal(rt)
+						pc, pb := e.do("A", e.rr, "POST", path, body)
+						gc, gb := e.do("A", e.rr, "GET", path+"?"+rt.ToURLQuery().Encode(), nil)
+						n++
+						if pc != gc || string(pb) != string(gb) {
+							if len(bad) < 5 {
+								bad = append(bad, fmt.Sprintf("POST %s %s answered %d %.80s, GET of the same relationship %d %.80s (the body before it was %s)",
+									path, body, pc, pb, gc, gb, func() string { b, _ := json.Marshal(tuples[i]); return string(b) }()))
+							}
+						}
+					}
+				}
+			}
+		}
+	}
+	return map[string]any{"bodies": n, "bad": bad}
+}
